@@ -633,3 +633,326 @@ Proof.
     + intros r' [<-|Hr]; [|apply A8; exact Hr]. apply A7. rewrite lookup_in_new_class by exact He.
       rewrite !str_eqb_refl, Hn. discriminate.
 Qed.
+
+(* ------------------------------------------------------------------ the main induction *)
+Lemma new_import_err rec stk cur imp s : serr s <> None -> new_import rec stk cur imp s = s.
+Proof. intro H. unfold new_import, has_err. destruct (serr s); [reflexivity | contradiction]. Qed.
+
+Lemma fold_imports_err rec stk cur imps : forall s, serr s <> None ->
+  fold_left (fun s imp => new_import rec stk cur imp s) imps s = s.
+Proof.
+  induction imps as [|i imps IH]; intros s H; cbn [fold_left]; [reflexivity|].
+  rewrite new_import_err by exact H. apply IH. exact H.
+Qed.
+
+Section Main2.
+  Variable fs : list (list N * gfile).
+  Hypothesis Hbase : aget BASE fs = None.
+
+  Definition Good (stk : list (list N)) (s : st) : Prop :=
+    serr s = None /\ CF fs s /\ BC s /\ DI fs s /\ LK fs s /\ OS stk s.
+
+  Lemma Good_same stk s s' :
+    spaces s' = spaces s -> akeys (imported s') = akeys (imported s) -> created s' = created s ->
+    done s' = done s -> links s' = links s -> serr s' = serr s -> (backs s' = [] -> backs s = []) ->
+    Good stk s -> Good stk s'.
+  Proof.
+    intros Hs Hi Hc Hd Hl He Hb (G1 & G2 & G3 & G4 & G5 & G6).
+    split; [congruence|]. split; [eapply CF_same; eassumption|].
+    unfold BC, DI, LK, OS, lookup_in, has_ns in *. rewrite Hs, Hd, Hl.
+    split; [exact G3|]. split; [exact G4|]. split; [|exact G6].
+    intros Hb'. apply G5. apply Hb. exact Hb'.
+  Qed.
+
+  Definition Mid (stk : list (list N)) (ns : list N) (s0 : st) (pre : list (list N)) (t : st) : Prop :=
+    Good (ns :: stk) t /\ has_ns t ns = true /\
+    imports_of t ns = BASE :: map (abs_import ns) pre /\
+    (backs t = [] -> forall a, In a (map (abs_import ns) pre) -> In a (done t) \/ a = BASE) /\
+    (forall k, has_ns s0 k = true -> k <> ns -> has_ns t k = true /\ imports_of t k = imports_of s0 k) /\
+    (forall a, In a (map (abs_import ns) pre) -> has_ns t a = true).
+
+  Definition LoadSpec (fuel : nat) : Prop :=
+    forall stk ns s, Good (ns :: stk) s -> has_ns s ns = true -> imports_of s ns = [BASE] ->
+      serr (load fuel fs stk ns s) = None ->
+      Good stk (load fuel fs stk ns s) /\ In ns (done (load fuel fs stk ns s)) /\
+      (forall k, has_ns s k = true -> k <> ns -> imports_of (load fuel fs stk ns s) k = imports_of s k) /\
+      (forall f, aget ns fs = Some f ->
+         imports_of (load fuel fs stk ns s) ns = BASE :: map (abs_import ns) (gimports f) /\
+         forall a, In a (map (abs_import ns) (gimports f)) -> has_ns (load fuel fs stk ns s) a = true).
+
+  Lemma imports_some t ns l : imports_of t ns = BASE :: l -> aget ns (imported t) <> None.
+  Proof. unfold imports_of. destruct (aget ns (imported t)); [discriminate | intro H; discriminate H]. Qed.
+
+  Lemma import_step fuel stk ns s0 pre imp t : LoadSpec fuel ->
+    Mid stk ns s0 pre t ->
+    serr (new_import (load fuel fs (ns :: stk)) (ns :: stk) ns imp t) = None ->
+    Mid stk ns s0 (pre ++ [imp]) (new_import (load fuel fs (ns :: stk)) (ns :: stk) ns imp t).
+  Proof.
+    intros IH (HG & Hns & Himp & Hdone & Hframe & Hhas).
+    pose proof HG as (He & Hcf & Hbc & Hdi & Hlk & Hos).
+    unfold new_import. rewrite (proj2 (has_err_false t) He).
+    set (a := abs_import ns imp).
+    assert (Hpre : map (abs_import ns) (pre ++ [imp]) = map (abs_import ns) pre ++ [a]) by (rewrite map_app; reflexivity).
+    destruct (has_ns t a) eqn:Ha.
+    - (* the namespace exists already: only the import list grows *)
+      set (s1 := if mem_str a (ns :: stk) then note_back ns a t else t).
+      assert (E1 : spaces s1 = spaces t /\ imported s1 = imported t /\ created s1 = created t /\ done s1 = done t
+                    /\ links s1 = links t /\ serr s1 = serr t) by (unfold s1; destruct (mem_str a (ns :: stk)); repeat split; reflexivity).
+      destruct E1 as (E1 & E2 & E3 & E4 & E5 & E6).
+      assert (Eb : backs s1 = [] -> backs t = [] /\ mem_str a (ns :: stk) = false).
+      { unfold s1. destruct (mem_str a (ns :: stk)); cbn [backs note_back]; intro H; [|split; [exact H | reflexivity]].
+        apply app_nil_inv in H as H'. destruct (backs t); discriminate. }
+      rewrite (proj2 (has_err_false s1)) by congruence. intros _.
+      assert (HG1 : Good (ns :: stk) s1).
+      { apply (Good_same _ t); try congruence. intro H. apply Eb in H. apply H. }
+      split; [|split; [|split; [|split; [|split]]]].
+      + apply (Good_same _ s1); try reflexivity; [|auto|exact HG1]. cbn [imported add_imported]. apply akeys_aupd.
+      + unfold has_ns in *. cbn [spaces add_imported]. rewrite E1. exact Hns.
+      + rewrite imports_of_add_same by (rewrite E2; eapply imports_some; exact Himp).
+        unfold imports_of in *. rewrite E2, Himp, Hpre. reflexivity.
+      + cbn [backs done add_imported]. intros Hb x Hx. apply Eb in Hb as [Hb Hm]. rewrite E4.
+        rewrite Hpre in Hx. apply in_app_or in Hx as [Hx|[<-|[]]]; [apply Hdone; assumption|].
+        destruct (Hos a Ha) as [H|[H|H]]; [right; exact H | left; exact H|].
+        apply mem_str_In in H. congruence.
+      + intros k Hk Hne. destruct (Hframe k Hk Hne) as [F1 F2]. split.
+        * unfold has_ns in *. cbn [spaces add_imported]. rewrite E1. exact F1.
+        * rewrite imports_of_add_other by exact Hne. unfold imports_of in *. rewrite E2. exact F2.
+      + intros x Hx. rewrite Hpre in Hx. apply in_app_or in Hx as [Hx|[<-|[]]];
+          unfold has_ns in *; cbn [spaces add_imported]; rewrite E1; [apply Hhas; exact Hx | exact Ha].
+    - (* a new namespace: load its file completely, then record the import *)
+      set (t1 := enter a t).
+      set (s1 := load fuel fs (ns :: stk) a t1).
+      destruct (has_err s1) eqn:He1; [intro H; apply has_err_false in H; congruence|].
+      apply has_err_false in He1. intros _.
+      assert (Hsync : sync t) by apply Hcf.
+      assert (Ha' : aget a (imported t) = None).
+      { destruct (aget a (imported t)) eqn:E; [|reflexivity].
+        assert (X : has_ns t a = true) by (apply sync_has_ns; [exact Hsync | rewrite E; discriminate]). congruence. }
+      assert (HG1 : Good (a :: ns :: stk) t1).
+      { split; [exact He|]. split; [apply CF_enter; assumption|].
+        split; [intros n Hn; unfold t1; rewrite lookup_in_enter by exact Ha; apply Hbc; exact Hn|].
+        split; [intros x Hx n Hn; unfold t1; rewrite lookup_in_enter by exact Ha; exact (Hdi x Hx n Hn)|].
+        split; [exact Hlk|].
+        intros x Hx. unfold t1 in Hx. rewrite has_ns_enter in Hx. apply orb_true_iff in Hx as [Hx|Hx].
+        - destruct (Hos x Hx) as [H|[H|H]]; [left; exact H | right; left; exact H | right; right; right; exact H].
+        - apply str_eqb_eq in Hx. subst x. right; right; left; reflexivity. }
+      assert (Hn1 : has_ns t1 a = true) by (unfold t1; rewrite has_ns_enter, str_eqb_refl; apply orb_true_r).
+      assert (Hi1 : imports_of t1 a = [BASE]) by (apply imports_of_enter_new; exact Ha').
+      destruct (IH (ns :: stk) a t1 HG1 Hn1 Hi1 He1) as (HG2 & Hd2 & Hf2 & _). fold s1 in HG2, Hd2, Hf2.
+      pose proof (grow_load fs fuel (ns :: stk) a t1) as Hgr. fold s1 in Hgr.
+      assert (Hne : ns <> a) by (eapply has_ns_neq; eassumption).
+      assert (Hns1 : has_ns t1 ns = true) by (unfold t1; rewrite has_ns_enter, Hns; reflexivity).
+      assert (Hi_ns : imports_of s1 ns = imports_of t ns).
+      { rewrite (Hf2 ns Hns1 Hne). apply imports_of_enter_old. eapply imports_some; exact Himp. }
+      split; [|split; [|split; [|split; [|split]]]].
+      + apply (Good_same _ s1); try reflexivity; [|auto|exact HG2]. cbn [imported add_imported]. apply akeys_aupd.
+      + unfold has_ns. cbn [spaces add_imported]. apply (g_ns _ _ Hgr). exact Hns1.
+      + rewrite imports_of_add_same.
+        * rewrite Hi_ns, Himp, Hpre. reflexivity.
+        * apply (sync_has_ns s1 ns); [apply HG2 | apply (g_ns _ _ Hgr); exact Hns1].
+      + cbn [backs done add_imported]. intros Hb x Hx. rewrite Hpre in Hx.
+        apply in_app_or in Hx as [Hx|[<-|[]]]; [|left; exact Hd2].
+        assert (Hbt : backs t = []) by (apply (g_backs _ _ Hgr) in Hb; exact Hb).
+        destruct (Hdone Hbt x Hx) as [H|H]; [left; apply (g_done _ _ Hgr); exact H | right; exact H].
+      + intros k Hk Hnk. destruct (Hframe k Hk Hnk) as [F1 F2].
+        assert (Hk1 : has_ns t1 k = true) by (unfold t1; rewrite has_ns_enter, F1; reflexivity).
+        split.
+        * unfold has_ns. cbn [spaces add_imported]. apply (g_ns _ _ Hgr). exact Hk1.
+        * rewrite imports_of_add_other by exact Hnk. rewrite (Hf2 k Hk1 (has_ns_neq _ _ _ Ha F1)).
+          unfold t1. rewrite imports_of_enter_old; [exact F2|]. apply sync_has_ns; assumption.
+      + intros x Hx. rewrite Hpre in Hx. unfold has_ns. cbn [spaces add_imported]. apply (g_ns _ _ Hgr).
+        unfold t1. rewrite has_ns_enter.
+        apply in_app_or in Hx as [Hx|[<-|[]]]; [rewrite (Hhas x Hx); reflexivity | rewrite str_eqb_refl; apply orb_true_r].
+  Qed.
+
+  Lemma import_fold fuel stk ns s0 : LoadSpec fuel -> forall rest pre t,
+    Mid stk ns s0 pre t ->
+    serr (fold_left (fun s imp => new_import (load fuel fs (ns :: stk)) (ns :: stk) ns imp s) rest t) = None ->
+    Mid stk ns s0 (pre ++ rest)
+        (fold_left (fun s imp => new_import (load fuel fs (ns :: stk)) (ns :: stk) ns imp s) rest t).
+  Proof.
+    intros IH. induction rest as [|i rest IHr]; intros pre t HM He; cbn [fold_left] in *.
+    - rewrite app_nil_r. exact HM.
+    - set (t1 := new_import (load fuel fs (ns :: stk)) (ns :: stk) ns i t) in *.
+      assert (He1 : serr t1 = None).
+      { destruct (serr t1) eqn:E; [|reflexivity]. rewrite fold_imports_err in He by (rewrite E; discriminate). congruence. }
+      replace (pre ++ i :: rest) with ((pre ++ [i]) ++ rest) by (rewrite <- app_assoc; reflexivity).
+      apply IHr; [|exact He]. apply import_step; assumption.
+  Qed.
+
+  Lemma load_good : forall fuel, LoadSpec fuel.
+  Proof.
+    induction fuel as [|fuel IH]; intros stk ns s HG Hns Himp; cbn [load];
+      pose proof HG as (He & Hcf & Hbc & Hdi & Hlk & Hos);
+      rewrite (proj2 (has_err_false s) He);
+      (destruct (aget ns fs) as [f|] eqn:Hf; [|cbn [serr set_err]; discriminate]).
+    - cbn [serr set_err]; discriminate.
+    - cbv zeta.
+      set (s0 := log_load ns s).
+      set (s1 := fold_left _ (gimports f) s0).
+      set (s2 := fold_left _ (grules f) s1).
+      intro Hfin.
+      (* no error anywhere on the way *)
+      assert (He2 : serr s2 = None).
+      { destruct (serr s2) eqn:E; [|reflexivity]. rewrite second_pass_err in Hfin by (rewrite E; discriminate). congruence. }
+      assert (He1 : serr s1 = None).
+      { destruct (serr s1) eqn:E; [|reflexivity]. exfalso.
+        assert (X : s2 = s1).
+        { unfold s2. generalize (grules f). intro rs. induction rs as [|r rs IHrs]; cbn [fold_left]; [reflexivity|].
+          rewrite new_class_err by (rewrite E; discriminate). exact IHrs. }
+        rewrite X in He2. congruence. }
+      (* imports *)
+      assert (HM0 : Mid stk ns s [] s0).
+      { split; [apply (Good_same _ s); try reflexivity; auto|].
+        split; [exact Hns|]. split; [exact Himp|]. split; [intros _ a []|].
+        split; [|intros a []]. intros k Hk _. split; [exact Hk | reflexivity]. }
+      pose proof (import_fold fuel stk ns s IH (gimports f) [] s0 HM0 He1) as HM1. fold s1 in HM1. cbn [app] in HM1.
+      destruct HM1 as (HG1 & Hns1 & Himp1 & Hdone1 & Hframe1 & Hhas1).
+      pose proof HG1 as (_ & Hcf1 & Hbc1 & Hdi1 & Hlk1 & Hos1).
+      (* rule names *)
+      destruct (fold_classes_props ns (grules f) s1 He1 Hns1) as (_ & C2 & C3 & C4 & C5 & C6 & C7 & C8).
+      fold s2 in C2, C3, C4, C5, C6, C7, C8.
+      assert (Hcf2 : CF fs s2).
+      { unfold s2. apply (fold_classes_rel fs (fun a b => CF fs a -> CF fs b)) with (f := f); auto using incl_refl.
+        intros n g r t. apply CF_new_class. }
+      assert (Hbc2 : BC s2) by (intros n Hn; apply C7, Hbc1; exact Hn).
+      assert (Hdi2 : DI fs s2) by (intros a Ha n Hn; apply C7; rewrite C2 in Ha; exact (Hdi1 a Ha n Hn)).
+      assert (Hready : backs s2 = [] -> Ready fs ns f s2).
+      { intro Hb. split; [exact Hf|]. split; [exact C8|]. split.
+        - unfold imports_of in *. rewrite C5. exact Himp1.
+        - intros a Ha. rewrite C2. apply Hdone1; [rewrite <- C4; exact Hb | exact Ha]. }
+      (* second pass *)
+      destruct (second_pass_cases ns f s2 He2) as [[e Hsp]|(Hsp & U1 & U2)];
+        [rewrite Hsp in Hfin; cbn [serr set_err] in Hfin; discriminate|].
+      rewrite Hsp. clear Hfin.
+      set (ls := flat_map (links_of_rule s2 ns) (grules f)) in *.
+      split; [|split; [|split]].
+      + split; [exact He2|]. split; [apply (CF_same fs s2); try reflexivity; exact Hcf2|].
+        split; [exact Hbc2|]. split; [|split].
+        * intros a Ha n Hn. cbn [done log_done add_links] in Ha. apply in_app_or in Ha as [Ha|[<-|[]]].
+          -- exact (Hdi2 a Ha n Hn).
+          -- change (lookup_in s2 ns n <> None). unfold defines in Hn. rewrite Hf in Hn. apply mem_str_In in Hn.
+             apply in_map_iff in Hn as (r & <- & Hr). apply C8. exact Hr.
+        * intros Hb l Hl. cbn [backs links log_done add_links] in Hb, Hl. apply in_app_or in Hl as [Hl|Hl].
+          -- apply Hlk1; [rewrite <- C4; exact Hb | rewrite <- C3; exact Hl].
+          -- assert (Ht : l_target l <> None).
+             { destruct (l_cref l) eqn:Ec; [exact (unresolved_nil _ _ U2 l Hl Ec) | exact (unresolved_nil _ _ U1 l Hl Ec)]. }
+             assert (Hshape : l_ns l = ns /\ l_target l = lookup s2 ns (l_name l)).
+             { unfold ls in Hl. apply in_flat_map in Hl as (r & _ & Hl). unfold links_of_rule in Hl.
+               apply in_app_or in Hl as [Hl|Hl]; apply in_map_iff in Hl as (n & <- & _); split; reflexivity. }
+             destruct Hshape as [Hn Htg]. unfold link_ok. rewrite Hn.
+             destruct (l_target l) as [c|] eqn:Et; [|contradiction]. cbn [option_map].
+             eapply (ready_lookup fs Hbase); [apply Hready; exact Hb | apply Hcf2 | exact Hdi2 | exact Hbc2 | symmetry; exact Htg].
+        * intros a Ha. change (has_ns s2 a = true) in Ha. rewrite C6 in Ha.
+          cbn [done log_done add_links]. destruct (Hos1 a Ha) as [H|[H|[H|H]]].
+          -- left; exact H.
+          -- right; left. apply in_or_app. left. rewrite C2. exact H.
+          -- right; left. apply in_or_app. right. left. exact H.
+          -- right; right. exact H.
+      + cbn [done log_done add_links]. apply in_or_app. right. left. reflexivity.
+      + intros k Hk Hne. destruct (Hframe1 k Hk Hne) as [_ F]. unfold imports_of in *.
+        cbn [imported log_done add_links]. rewrite C5. exact F.
+      + intros f' Hf'. inversion Hf'; subst f'. split.
+        * unfold imports_of in *. cbn [imported log_done add_links]. rewrite C5. exact Himp1.
+        * intros a Ha. change (has_ns s2 a = true). rewrite C6. apply Hhas1. exact Ha.
+  Qed.
+End Main2.
+
+(* ------------------------------------------------------------------ metamodel_from_file(main) *)
+Section Top.
+  Variable fs : list (list N * gfile).
+  Variable main : list N.
+  Hypothesis Hbase : aget BASE fs = None.
+  Hypothesis Hmain : main <> BASE.
+
+  Lemma has_ns_init k : has_ns init k = true -> k = BASE.
+  Proof.
+    unfold has_ns, init; cbn [spaces aget]. destruct (str_eqb k BASE) eqn:E; [|discriminate].
+    intros _. apply str_eqb_eq. exact E.
+  Qed.
+
+  Lemma has_ns_init_main : has_ns init main = false.
+  Proof. destruct (has_ns init main) eqn:E; [|reflexivity]. apply has_ns_init in E. contradiction. Qed.
+
+  Lemma CF_main : CF fs (load_main fs main).
+  Proof. unfold load_main. apply CF_load. apply CF_enter; [exact has_ns_init_main | apply CF_init]. Qed.
+
+  Lemma start_good : Good fs [main] (enter main init) /\ has_ns (enter main init) main = true /\
+                     imports_of (enter main init) main = [BASE].
+  Proof.
+    pose proof has_ns_init_main as Hn. split; [|split].
+    - split; [reflexivity|]. split; [apply CF_enter; [exact Hn | apply CF_init]|].
+      split; [intros n H; rewrite lookup_in_enter by exact Hn; apply BC_init; exact H|].
+      split; [intros a []|]. split; [intros _ l []|].
+      intros a Ha. rewrite has_ns_enter in Ha. apply orb_true_iff in Ha as [Ha|Ha].
+      + left. apply has_ns_init. exact Ha.
+      + apply str_eqb_eq in Ha. subst. right; right; left; reflexivity.
+    - rewrite has_ns_enter, str_eqb_refl. apply orb_true_r.
+    - apply imports_of_enter_new. cbn [imported init aget].
+      destruct (str_eqb main BASE) eqn:E; [apply str_eqb_eq in E; contradiction | reflexivity].
+  Qed.
+
+  Lemma main_result : serr (load_main fs main) = None ->
+    Good fs [] (load_main fs main) /\ In main (done (load_main fs main)) /\
+    (forall f, aget main fs = Some f ->
+       imports_of (load_main fs main) main = BASE :: map (abs_import main) (gimports f) /\
+       forall a, In a (map (abs_import main) (gimports f)) -> has_ns (load_main fs main) a = true).
+  Proof.
+    intro He. destruct start_good as (G & Hn & Hi).
+    destruct (load_good fs Hbase (S (length fs)) [] main (enter main init) G Hn Hi He) as (A & B & _ & D).
+    split; [exact A|]. split; [exact B | exact D].
+  Qed.
+
+  (* every reference recorded by a second pass is the documented one, when no grammar
+     imports a grammar that is still being loaded *)
+  Lemma links_spec : serr (load_main fs main) = None -> backs (load_main fs main) = [] ->
+    forall l, In l (links (load_main fs main)) -> link_ok fs l.
+  Proof. intros He Hb. destruct (main_result He) as ((_ & _ & _ & _ & Hlk & _) & _). apply Hlk. exact Hb. Qed.
+
+  Lemma main_file : serr (load_main fs main) = None -> exists f, aget main fs = Some f.
+  Proof.
+    unfold load_main. cbn [load]. destruct (has_err (enter main init)) eqn:E; [discriminate E|].
+    destruct (aget main fs) as [f|]; [intros _; exists f; reflexivity | cbn [serr set_err]; discriminate].
+  Qed.
+
+  Lemma main_ready : serr (load_main fs main) = None -> exists f, Ready fs main f (load_main fs main).
+  Proof.
+    intro He. destruct (main_file He) as [f Hf]. exists f.
+    destruct (main_result He) as ((_ & _ & _ & Hdi & _ & Hos) & Hd & Himp).
+    destruct (Himp f Hf) as [Hi Hh].
+    split; [exact Hf|]. split; [|split; [exact Hi|]].
+    - intros r Hr. apply (Hdi main Hd). eapply defines_rule; eassumption.
+    - intros a Ha. destruct (Hos a (Hh a Ha)) as [H|[H|[]]]; [right; exact H | left; exact H].
+  Qed.
+
+  (* metamodel[name] after a successful load, cycles or not *)
+  Lemma final_lookup : serr (load_main fs main) = None -> forall name c,
+    lookup (load_main fs main) main name = Some c -> Some (cls_key c) = spec_resolve fs main name.
+  Proof.
+    intros He name c H. destruct (main_ready He) as [f Hr].
+    destruct (main_result He) as ((_ & Hcf & Hbc & Hdi & _) & _).
+    eapply (ready_lookup fs Hbase); [exact Hr | apply Hcf | exact Hdi | exact Hbc | exact H].
+  Qed.
+
+  Lemma final_lookup_none : serr (load_main fs main) = None -> forall name, has_dot name = false ->
+    lookup (load_main fs main) main name = None -> spec_resolve fs main name = None.
+  Proof.
+    intros He name Hd H. destruct (main_ready He) as [f Hr].
+    destruct (main_result He) as ((_ & Hcf & Hbc & Hdi & _) & _).
+    eapply (ready_lookup_none fs Hbase); [exact Hr | apply Hcf | exact Hdi | exact Hbc | exact Hd | exact H].
+  Qed.
+
+  (* the class tables: a class sits under its own name in the namespace of its file and
+     reports that file-based name; two entries never share a class *)
+  Lemma classes_fqn : forall a n c, lookup_in (load_main fs main) a n = Some c ->
+    c_ns c = a /\ c_name c = n /\ fqn c = (if str_eqb a BASE then n else a ++ DOT :: n).
+  Proof.
+    intros a n c H. destruct CF_main as (_ & B & _). apply B in H as (H1 & H2 & _).
+    split; [exact H1|]. split; [exact H2|]. unfold fqn. rewrite H1, H2. reflexivity.
+  Qed.
+
+  Lemma classes_distinct : forall a n c a' n' c',
+    lookup_in (load_main fs main) a n = Some c -> lookup_in (load_main fs main) a' n' = Some c' ->
+    c_id c = c_id c' -> a = a' /\ n = n'.
+  Proof. destruct CF_main as (_ & _ & C). exact C. Qed.
+End Top.
